@@ -43,6 +43,9 @@ type echoCfg struct {
 	pBadValue         int    // percent of calls whose frame cannot be built (prepared statement with an unmarshalable value)
 	writeCutAt        int64  // driver-side write cut at this stream offset on the data connection (-1 = none)
 	cutErrOnly        bool
+	stallAt           int64         // driver-side writes block from this stream offset on until the write deadline (0 = none)
+	writeTimeout      time.Duration // ClusterConfig.WriteTimeout (0 = gocql's default)
+	timeoutLimit      int64         // gocql.TimeoutLimit for this scenario (0 = gocql's default: off)
 	nodeCloseAfter    int // node closes the data connection mid-frame after this many answers (-1 = none)
 	closeSessionAfter int // Session.Close is called concurrently after this many completed calls (-1 = at the end)
 	intensity         int
@@ -335,7 +338,7 @@ func classifyErr(err error) string {
 	}
 	s := err.Error()
 	switch {
-	case strings.Contains(s, "heartbeat failed"):
+	case strings.Contains(s, "heartbeat failed"), strings.Contains(s, "too many query timeouts"):
 		// the driver closed the connection itself after six failed heartbeats; in-flight calls get this text
 		return "conn-closed"
 	case strings.Contains(s, "EOF"), strings.Contains(s, "closed pipe"), strings.Contains(s, "unable to read frame body"), strings.Contains(s, "injected write failure"), strings.Contains(s, "i/o timeout"), strings.Contains(s, "deadline exceeded"):
@@ -361,14 +364,22 @@ func runEcho(c *runner.Ctx, ec *echoCfg) *echoResult {
 	res.cluster = cl
 	en := &echoNode{cfg: ec, arrivals: map[string]int{}, where: map[string]string{}, window: map[*fakenode.ServerConn][]*fakenode.Req{}, answered: map[*fakenode.ServerConn]int{}, late: map[string]time.Time{}}
 	cl.Nodes[0].Handler = en.handler
-	if ec.writeCutAt >= 0 {
+	if ec.writeCutAt >= 0 || ec.stallAt > 0 {
 		cl.FaultsFor = func(n *fakenode.Node, k int) memnet.Faults {
 			f := memnet.NoFaults()
 			if k == 1 { // the first data connection (index 0 is the control connection)
 				f.WriteCutAt = ec.writeCutAt
+				if ec.stallAt > 0 {
+					f.StallWritesAt = ec.stallAt
+				}
 			}
 			return f
 		}
+	}
+	if ec.timeoutLimit > 0 {
+		old := gocql.TimeoutLimit
+		gocql.TimeoutLimit = ec.timeoutLimit
+		defer func() { gocql.TimeoutLimit = old }()
 	}
 	res.writes = map[string]writeObs{}
 	var wmu sync.Mutex
@@ -392,6 +403,9 @@ func runEcho(c *runner.Ctx, ec *echoCfg) *echoResult {
 	cfg.Timeout = ec.timeout
 	cfg.ConnectTimeout = 2 * time.Second
 	cfg.WriteCoalesceWaitTime = ec.coalesce
+	if ec.writeTimeout > 0 {
+		cfg.WriteTimeout = ec.writeTimeout
+	}
 	cfg.NumConns = ec.numConns
 	cfg.StreamObserver = res.streamObs
 	cfg.PageSize = 0
